@@ -6,7 +6,7 @@ HOOKS = {
     "add_only": True,
 }
 ENGINES = [
-    {"name": "SEQ", "path": "/verif/amc/kit", "serves_properties": ["C02"],
+    {"name": "SEQ", "path": "/verif/amc/kit", "serves_properties": ["C01", "C02"],
      "kind_free_text": "sequential explicit-state search: BFS over the states of real machines (successor = fresh instance + replayed shortest path + one operation), enumerated schema spaces, reference predicates"},
 ]
 NOTES = "All checks run the real code of /repo rebuilt from its working tree; exit 0 held / 1 unlisted violation / 2 harness error. known-findings.jsonl lists recorded genuine defects (printed as KNOWN-FINDING) and fixed ones (replayed as regressions)."
@@ -18,5 +18,12 @@ LEVELS = {
         "text": "Every transition of every enumerated schema (all 1-/2-state schemas, the 3-state spaces stated in the evidence, chain/ring/fan families up to 6 states) from every reachable ordered active list is executed on the real machine and checked against relation predicates written from the property text; bounded-exhaustive, which is the right level for an order-sensitive pure function over small relation graphs.",
         "design_ref": "DESIGN.md section 5 C02, section 4.4",
         "note": "Trusted: the recording tracer's TimeBefore/TimeAfter (cross-checked by C14/C01), the reference predicates. Not covered: schemas with >3 states outside the families; handler-bound machines (C03/C05/C07).",
+    },
+    "C01": {
+        "engine": "SEQ",
+        "technique": "explicit-state model checking on the real machine: schema enumeration x BFS over reachable states x all mutation kinds x handler configurations, view-agreement and tick-delta oracles",
+        "text": "Every reachable state of every enumerated schema is expanded with every mutation kind; after each step all public views are compared with Time(nil), every traced transition's per-state tick delta is checked against the documented step table, and tracer/OnChange before/after times are chained. Bounded-exhaustive over small schemas, which is where tick arithmetic lives.",
+        "design_ref": "DESIGN.md section 5 C01",
+        "note": "Trusted: kit.CheckViews parsers. Handler-bound variants run inside testing/synctest bubbles (fake time). Concurrent readers: see SCHED half.",
     },
 }
